@@ -85,7 +85,10 @@ def run_config(run, tsc, mon, rng, n1d, nthread, npartition, coord, sort, offset
     shape = tuple(shape)
     np_guess = npartition
     conf = dict(n1d=n1d, nthread=nthread, npartition=npartition, coord=coord, sort=sort, offset_cells=offset_cells, box=box, dtype=np.dtype(dtype).str, weights=weights, grid_shape=list(shape))
-    npart_for_particles = npartition if npartition else max(2, 2 * nthread)
+    npart_for_particles = npartition if npartition else max(2, 2 * (nthread if nthread > 0 else 16))
+    if abs(offset_cells) > n1d - 3:
+        offset_cells = 0.5  # the periodic index helper wraps once: a shift must stay well inside one box length on every axis
+        conf['offset_cells'] = offset_cells
     offset = offset_cells * box / n1d
     grid = np.zeros(shape, dtype=np.float64)
     run.ev()
@@ -108,7 +111,9 @@ def run_config(run, tsc, mon, rng, n1d, nthread, npartition, coord, sort, offset
     run.count('accepted')
     eff = getattr(mon, 'effective_threads', nthread)
     conf['threads_in_force_at_kernel_entry'] = eff
-    if eff != nthread:
+    import numba as _nb
+
+    if eff != (nthread if nthread > 0 else _nb.config.NUMBA_NUM_THREADS):
         run.count('kernel_entered_with_other_thread_count')
     if nthread == 1 and eff == 1:
         run.count('accepted_serial_no_concurrency')
@@ -170,11 +175,11 @@ def acceptance_sweep(run, tsc):
     with mas.TscRaceMonitor(tsc) as mon:
         if run.quick:
             n1ds = list(range(3, 41)) + [48, 64, 96, 128]
-            nthreads = [1, 2, 4, 16]
+            nthreads = [1, 2, 4, 16, -1]  # a negative count means all of numba's threads (the documented default)
             nexplicit = 6
         else:
             n1ds = list(range(3, 131))
-            nthreads = list(range(1, 17))
+            nthreads = list(range(1, 17)) + [-1, -2]
             nexplicit = 10**9
         k = 0
         for n1d in n1ds:
@@ -190,7 +195,7 @@ def acceptance_sweep(run, tsc):
                     k += 1
                     coord = k % 3
                     sort = bool((k // 3) % 2)
-                    offset_cells = [0.0, 0.5, 0.0, 0.5, 0.25, -0.5][k % 6]
+                    offset_cells = [0.0, 0.5, 0.0, 0.5, 0.25, -0.5, 1.0, -2.5, 2.5, 3.75][k % 10]  # the deposit offset is any length, not only the half cell of interlacing
                     box = [1.0, 123.0, 2000.0][(k // 2) % 3]
                     dtype = [np.float32, np.float64][(k // 5) % 2]
                     weights = bool(k % 2)
